@@ -73,6 +73,7 @@ type Replay struct {
 	Cost      int      `json:"cost"`
 	Choices   []int    `json:"choices"`
 	Trace     []string `json:"trace"`
+	Detail    string   `json:"detail,omitempty"`
 }
 
 func runUnit(u *Unit, deadline time.Time) UnitResult {
@@ -340,7 +341,7 @@ func Main() {
 		nviol++
 		h := sha256.Sum256([]byte(x.v.Key + x.unit))
 		path := filepath.Join(*replays, fmt.Sprintf("%s-%s.json", p.ID, hex.EncodeToString(h[:5])))
-		rp := Replay{Property: p.ID, Unit: x.unit, Tier: *tier, Key: x.v.Key, Violation: x.v.Msg, Cost: x.v.Cost, Choices: x.v.Choices, Trace: x.v.Trace}
+		rp := Replay{Property: p.ID, Unit: x.unit, Tier: *tier, Key: x.v.Key, Violation: x.v.Msg, Cost: x.v.Cost, Choices: x.v.Choices, Trace: x.v.Trace, Detail: x.v.Detail}
 		js, _ := json.MarshalIndent(rp, "", " ")
 		os.WriteFile(path, js, 0o644)
 		fmt.Printf("finding key=%s unit=%s cost=%d: %s\n", x.v.Key, x.unit, x.v.Cost, x.v.Msg)
